@@ -375,7 +375,7 @@ class Float:
     def __round__(self, *args, **kwargs):
         if self.is_nar():
             raise ValueError('cannot round infinity or NaN')
-        return self._real.__round__()
+        return self._real.__round__(*args, **kwargs)
 
     def __floordiv__(self, other: Real):
         if TYPE_CHECKING:
